@@ -62,6 +62,85 @@ class Runner:
         return r, mods
 
 
+def tlgen_histories(ctx, base, viol):
+    """the old generator's output directory handling (internal/tlcodegen/tlgen.go WriteToDir), C++ output of cases.tl"""
+    tlgen = gen.tool(ctx, "tlgen")
+    schema = os.path.join(ctx.scratch, gen.TLS + "cases.tl")
+    steps = 0
+
+    def run_gen(D, n):
+        log = os.path.join(ctx.work, "strace-tlgen-%d.txt" % n)
+        cmd = ["strace", "-f", "-qq", "-e", "trace=" + WRITE_CALLS, "-o", log, tlgen, "--language=cpp", "--outdir=" + D, "--schemaTimestamp=1700000000", "--cpp-generate-meta", "--cpp-generate-factory", schema]
+        r = ctx.run(cmd, cwd=ctx.scratch, timeout=600)
+        return r, (parse_strace(log, ctx.scratch) if os.path.exists(log) else [])
+
+    n = 0
+    for hist in (["gen", "gen"], ["gen", "foreign", "gen"], ["subdirsonly"], ["gen", "nomarker"], ["topfile"], ["gen", "subdirsonly-extra", "gen"]):
+        wdir = os.path.join(base, "wt")
+        shutil.rmtree(wdir, ignore_errors=True)
+        os.makedirs(wdir)
+        D = os.path.join(wdir, "out")
+        done = []
+        clean = None
+        for step in hist:
+            done.append("tlgen:" + step)
+            steps += 1
+            n += 1
+            ctx.distinct("tlgen/" + "-".join(done))
+            if step == "gen":
+                before = snap(D) if os.path.isdir(D) else {}
+                r, mods = run_gen(D, n)
+                ctx.count()
+                if r.rc != 0:
+                    viol("generation-failed", "tlgen --language=cpp failed (rc=%d): %s" % (r.rc, r.tail(300)), done)
+                    break
+                after = snap(D)
+                if clean is None:
+                    clean = {k: v[0] for k, v in after.items()} if not before else None
+                got = {k: v[0] for k, v in after.items()}
+                ref = TLGEN_REF.setdefault("ref", got if not before else None)
+                if ref is not None and got != ref:
+                    viol("file-set", "tlgen: after regeneration the directory differs from a clean generation: extra %s missing %s" % (sorted(set(got) - set(ref))[:4], sorted(set(ref) - set(got))[:4]), done)
+                for k in after:
+                    if k in before and before[k][0] == after[k][0] and (before[k][1] != after[k][1] or before[k][2] != after[k][2]):
+                        viol("unchanged-file-rewritten", "tlgen: file %s has the same content but a new mtime/inode" % k, done)
+                        break
+                Dn = os.path.normpath(D)
+                for call, p, ret in mods:
+                    if not (p == Dn or p.startswith(Dn + os.sep) or p.startswith("/dev/") or p.startswith("/proc/")):
+                        viol("write-outside-outdir", "tlgen: %s(%s) = %d outside the output directory" % (call, p, ret), done)
+                        break
+            elif step in ("foreign", "subdirsonly-extra"):
+                os.makedirs(os.path.join(D, "zz_foreign", "deep"), exist_ok=True)
+                open(os.path.join(D, "zz_foreign", "deep", "x.h"), "w").write("// not generated\n")
+                if step == "foreign":
+                    open(os.path.join(D, "foreign.txt"), "w").write("not generated\n")
+            else:
+                if step == "subdirsonly":
+                    os.makedirs(os.path.join(D, "proj1", "src"))
+                    open(os.path.join(D, "proj1", "src", "main.cpp"), "w").write("int main(){}\n")
+                    os.makedirs(os.path.join(D, "proj2"))
+                    open(os.path.join(D, "proj2", "notes.txt"), "w").write("notes\n")
+                elif step == "topfile":
+                    os.makedirs(D)
+                    open(os.path.join(D, "README"), "w").write("mine\n")
+                elif step == "nomarker":
+                    os.remove(os.path.join(D, "tlgen2_version.txt"))
+                before = snap(D)
+                r, mods = run_gen(D, n)
+                ctx.count()
+                after = snap(D)
+                if r.rc == 0:
+                    viol("refusal", "tlgen: non-empty output directory without the marker file (%s) was accepted" % step, done)
+                elif before != after:
+                    viol("refused-but-modified", "tlgen: generation was refused (%s) but the directory changed" % step, done)
+                break
+    return steps
+
+
+TLGEN_REF = {}
+
+
 def run(ctx):
     thorough = ctx.tier == "thorough"
     ctx.make_scratch()
@@ -109,7 +188,8 @@ def run(ctx):
         r, _ = R.gen(d, sc, strace=False, pkg_rel="internal/vgen/w/out")
         ctx.need(r, "reference generation of set " + nm)
         refs[nm] = {k: v[0] for k, v in snap(d).items()}
-    histories = [["A", "A", "B", "A"], ["B", "A", "foreign", "B"], ["A", "nomarker", "A"], ["A", "markerdir"], ["emptydirs", "A", "A"], ["file"], ["A", "nestedforeign", "A"]]
+    histories = [["A", "A", "B", "A"], ["B", "A", "foreign", "B"], ["A", "nomarker", "A"], ["A", "markerdir"], ["emptydirs", "A", "A"], ["file"], ["A", "nestedforeign", "A"],
+                 ["A", "symlink", "A"]]
     if thorough:
         histories += [["A", "B", "C", "A", "C", "B"], ["C", "foreign", "nomarker", "C"], ["B", "B", "B"], ["A", "split", "A"], ["emptydirs", "B", "foreign", "A"]]
     for hi, hist in enumerate(histories):
@@ -154,6 +234,24 @@ def run(ctx):
                 ctx.cov.setdefault("counters", {})["unchanged_files_checked"] = ctx.cov.get("counters", {}).get("unchanged_files_checked", 0) + len(unchanged)
                 ctx.cov["counters"]["fs_modifying_syscalls_seen"] = ctx.cov["counters"].get("fs_modifying_syscalls_seen", 0) + len(mods)
                 cur = nm
+            elif step == "symlink":
+                # a symbolic link inside the output directory to a directory outside of it: whatever happens to the link, nothing behind it may be touched
+                outside = os.path.join(wdir, "outside_dir")
+                os.makedirs(os.path.join(outside, "sub"), exist_ok=True)
+                open(os.path.join(outside, "precious.go"), "w").write("package precious\n")
+                open(os.path.join(outside, "sub", "data.txt"), "w").write("data\n")
+                os.symlink(outside, os.path.join(D, "zz_link"))
+                os.symlink(os.path.join(outside, "precious.go"), os.path.join(D, "zz_filelink.go"))
+                outside_before = snap(outside)
+                done.append("A")
+                steps += 1
+                r, mods = R.gen(D, sets["A"])
+                ctx.count()
+                if snap(outside) != outside_before:
+                    viol("outside-files-touched-through-symlink", "regeneration changed or removed files of a directory outside the output directory that a symbolic link inside it points to: before %s, after %s" % (
+                        sorted(outside_before), sorted(snap(outside))), done)
+                ctx.cov.setdefault("counters", {})["symlink_scenarios"] = ctx.cov.get("counters", {}).get("symlink_scenarios", 0) + 1
+                break
             elif step in ("foreign", "nestedforeign"):
                 os.makedirs(os.path.join(D, "zz_foreign", "deep"), exist_ok=True)
                 open(os.path.join(D, "foreign.txt"), "w").write("not generated\n")
@@ -190,13 +288,16 @@ def run(ctx):
                 if step in ("nomarker", "markerdir", "file"):
                     break
         ctx.sample({"history": hist})
+    steps += tlgen_histories(ctx, base, viol)
     ctx.cov["rule"] = ("histories of generations into one output directory (sets A=cases, B=goldmaster, thorough: C=schema.tl and --split-internal): A->A->B->A, foreign and "
                        "stale files added while the marker exists, marker deleted, marker replaced by a directory, outdir is a file, empty sub-directories only. "
                        "Each step runs tl2gen under strace -f (open with write flags, creat, unlink, rename, mkdir, rmdir, truncate, link, symlink) with file-tree "
                        "snapshots (sha256, mtime, inode) before and after. Oracles: file set and contents == clean generation of the same set; files with unchanged "
                        "content keep mtime+inode and are never opened for writing; refusal => exit != 0, identical snapshot, no successful modifying syscall under the "
                        "directory; every modifying syscall targets the outdir or exactly pkg/basictl/basictl{,2}.go derived from --basicPkgPath. "
-                       "distinct_nontrivial = distinct history prefixes.")
+                       "A symbolic link inside the directory to an outside directory: nothing behind it changes. The old generator (tlgen --language=cpp, marker tlgen2_version.txt): "
+                       "regeneration keeps unchanged files, removes foreign files when the marker exists, and refuses (unmodified tree) a directory without the marker that has a "
+                       "top-level file, only nested files, or a deleted marker. distinct_nontrivial = distinct history prefixes.")
     ctx.require("steps", steps, 18)
     ctx.require("modifying syscalls observed", ctx.cov.get("counters", {}).get("fs_modifying_syscalls_seen", 0), 500)
     ctx.require("unchanged files checked", ctx.cov.get("counters", {}).get("unchanged_files_checked", 0), 200)
